@@ -224,7 +224,8 @@ class C04(Prop):
                    "peer feedback for a case counts as evidence that the case ran: feedback for a case without any outcome makes it a "
                    "failed (not a could-not-run) case; Run never reaches that state (every batch ends by giving each of its cases an outcome)",
                    "peer feedback lines: test names contain no ': ' and no surrounding blanks (the stderr reader splits at the first ': ')",
-                   "c04.flow/c04.run: the client ends inside the last batch only; what isRunning() reports after a clean exit "
+                   "c04.flow/c04.run: the client ends inside the last batch only (c04.run also between two batches, status 1, all-pass "
+                   "equal batches, without Verbose; c04.srvexit: all cases of a run alike, names compared by number); what isRunning() reports after a clean exit "
                    "(client_runner.go whenDone stores terminated=false) is C10's finding and is not relied upon")
     level_text = ("Machine-checked proof (Coq) over ALL operation histories and any number of cases that report()'s return value, Run's "
                   "verdict and the exit status are true exactly when every selected case has an outcome and met its expectation "
